@@ -115,6 +115,9 @@ BdfParse(evs, i, xo, xn, cur, att, inAtt) ==
 
 TraceCb ==
     /\ IsEvent("cb")
+    \* Level B: BDF restarts its history on ModifiedSolution - the step that follows equals the first step of a fresh run from
+    \* the point the callback left (probe of the recorder; the listed properties do not demand it: drift, never a violation)
+    /\ ((Rec[l].hasip /\ ~Rec[l].ip.cont_ok) => PrintT(<<"DRIFT", "bdf_restart", C.id, C.method>>))
     /\ LET e == Rec[l]
            first == A.nCb = 0
            okFirst == /\ e.k = 0 /\ e.xold.b = C.x0.b /\ e.x.b = C.x0.b
@@ -218,6 +221,7 @@ TraceRet ==
        /\ Viol("C09", "no_spurious", C09_NoSpurious(C, R))
        /\ Viol("C10", "recorded", C10_Recorded(C, R))
        /\ Viol("C10", "honoured", C10_Honoured(C, R))
+       /\ Viol("C10", "no_pass", C10_NoPass(C, R))
        /\ Viol("C11", "options", C11_Options(C, R))
        /\ Viol("C18", "counters", C18_Counters(C, A, R))
        /\ Viol("C18", "intervals", C18_Intervals(C, R))
